@@ -16,6 +16,10 @@ shape by general, semantics-preserving rules (nothing here looks at the text of 
                  arguments) or by an explicit assignment; its locals are renamed when they collide
   constants  a name that is never bound in the function and has exactly one module-level assignment to a number, a
              negated number or a tuple of numbers is replaced by that value
+  walrus     `(x := E)` that is the first thing a simple statement / an `if` test evaluates is hoisted: `x = E` in front
+  tryelse    `try: B except ...: <ends in raise/return> else: E` (no finally) becomes the try followed by E
+  partial    `f = partial(g, ...)` used once, as the callee of the first call the next statement evaluates, is merged into
+             that call (names / constants or call-free arguments only)
   ifexp      `t = a if c else b` / `return a if c else b` become if / else statements
   polarity   `if not c: A else: B` becomes `if c: B else: A`
   sink       `if c: x = A else: x = B` directly followed by `return x` becomes `if c: return A else: return B`
@@ -451,6 +455,46 @@ def p_walrus(stmts: list, local_names: set) -> list:
                 out.extend([pre, st])
                 continue
         out.append(st)
+    return out
+
+
+def p_partial(stmts: list, fn_body_ref: list, local_names: set) -> list:
+    """`f = partial(g, a.., k=v..)` directly followed by a simple statement whose first evaluated part is the only use of
+    f, the call `f(b.., k2=w..)`, becomes that statement with `g(a.., b.., k=v.., k2=w..)`: the partial's arguments are
+    names / constants (or everything is call-free), so evaluating them at the call instead changes nothing"""
+    out, i = [], 0
+    while i < len(stmts):
+        st = stmts[i]
+        nxt = stmts[i + 1] if i + 1 < len(stmts) else None
+        if isinstance(st, ast.Assign) and len(st.targets) == 1 and isinstance(st.targets[0], ast.Name) \
+                and isinstance(st.value, ast.Call) and ast.unparse(st.value.func) in ("partial", "functools.partial") \
+                and st.value.args and isinstance(nxt, (ast.Assign, ast.Return, ast.Expr)):
+            f, pc = st.targets[0].id, st.value
+            g, pargs, pkws = pc.args[0], pc.args[1:], pc.keywords
+            stores = sum(1 for b in fn_body_ref for n in ast.walk(b)
+                         if isinstance(n, ast.Name) and n.id == f and not isinstance(n.ctx, ast.Load))
+            calls = [n for n in ast.walk(nxt) if isinstance(n, ast.Call) and isinstance(n.func, ast.Name) and n.func.id == f]
+            pvals = list(pargs) + [k.value for k in pkws]
+            if stores == 1 and sum(_loads(b, f) for b in fn_body_ref) == 1 and len(calls) == 1 and _chain(g) \
+                    and _root(g) not in local_names \
+                    and not any(isinstance(a, ast.Starred) for a in list(pargs) + list(calls[0].args)) \
+                    and all(k.arg is not None for k in list(pkws) + list(calls[0].keywords)) \
+                    and not ({k.arg for k in pkws} & {k.arg for k in calls[0].keywords}) \
+                    and all(_pure_expr(v) for v in pvals) \
+                    and (all(isinstance(v, (ast.Name, ast.Constant)) for v in pvals)
+                         or not any(_has_impure_call(a) for a in list(calls[0].args) + [k.value for k in calls[0].keywords])) \
+                    and not ({n.id for v in pvals for n in ast.walk(v) if isinstance(n, ast.Name)} & _stored_names(nxt)) \
+                    and _first_evaluated(nxt, lambda n: n is calls[0], local_names):
+                c = calls[0]
+                c.func = g
+                c.args = list(pargs) + list(c.args)
+                c.keywords = list(pkws) + list(c.keywords)
+                ast.fix_missing_locations(nxt)
+                out.append(nxt)
+                i += 2
+                continue
+        out.append(st)
+        i += 1
     return out
 
 
@@ -980,6 +1024,7 @@ def normalise_function(fn: ast.FunctionDef, module_funcs: dict, helpers: dict, c
         local_names = _stored_names(fn) | {a.arg for a in ast.walk(fn.args) if isinstance(a, ast.arg)}
         fn.body = _map_blocks(fn.body, lambda b: p_walrus(b, local_names))
         fn.body = _map_blocks(fn.body, p_tryelse)
+        fn.body = _map_blocks(fn.body, lambda b: p_partial(b, fn.body, local_names))
         fn.body = _map_blocks(fn.body, p_ifexp)
         fn.body = _map_blocks(fn.body, p_polarity)
         fn.body = _map_blocks(fn.body, p_default)
